@@ -103,7 +103,7 @@ def parse_vspec(path):
             # @item <file> <kind> <selector> [as NAME] [props=C01,C02] [opt=val]
             if len(parts) < 4: raise SpecError(f'{path}:{i+1}: bad @item')
             sel = parts[3]; nsel = 4
-            if sel.startswith('<') and '>::' not in sel:
+            if (sel.startswith('<') or '::<' in sel) and '>::' not in sel:   # also `module::<Trait for Type>::method`
                 while nsel < len(parts) and '>::' not in sel:
                     sel += ' ' + parts[nsel]; nsel += 1
             it = ItemSpec(file=parts[1], kind=parts[2], sel=sel, line=i + 1)
@@ -120,7 +120,7 @@ def parse_vspec(path):
                 else:
                     raise SpecError(f'{path}:{i+1}: bad token {rest[k]}')
             u.parts.append(('item', it)); cur_item = it; i += 1
-        elif d in ('@sig', '@loop', '@loopend', '@before', '@after', '@closure', '@closure?', '@ret', '@tail', '@head', '@drop', '@split_or_arm', '@idiom', '@idiom?', '@dropstmt', '@relift', '@tryforeach', '@attr', '@hoist', '@loophead'):
+        elif d in ('@sig', '@loop', '@loopend', '@before', '@after', '@closure', '@closure?', '@ret', '@tail', '@head', '@drop', '@split_or_arm', '@idiom', '@idiom?', '@dropstmt', '@relift', '@tryforeach', '@attr', '@hoist', '@loophead', '@implspec'):
             if cur_item is None: raise SpecError(f'{path}:{i+1}: {d} outside @item')
             a = Ann(kind=d[1:].rstrip('?'), line=i + 1)
             if d.endswith('?'): a.opts['optional'] = '1'   # anchor may be absent (code before/after a fix)
@@ -194,7 +194,9 @@ def find_item(rel, kind, sel):
         return [x for x in its if not x.cfg_test and cfg_live(x)]
 
     def cfg_live(x):
-        for m in re.finditer(r'#\[cfg\((.*)\)\]', src[x.start:x.decl_start]):
+        # comment lines (doc comments may quote `#[cfg(test)]`, e.g. the shim's sync_dir) are not attributes
+        attrs = '\n'.join(l for l in src[x.start:x.decl_start].split('\n') if not l.lstrip().startswith('//'))
+        for m in re.finditer(r'#\[cfg\((.*)\)\]', attrs):
             if not cfg_true(m.group(1)):
                 return False
         return True
@@ -595,14 +597,25 @@ def apply_fx(tx, ct, lo, hi, fxname, fxcalls, inserts, mk, bare=False):
     """R13 (effect state made explicit): every call `.NAME(ARGS)` / `path::NAME(ARGS)` with NAME in fxcalls gets the
     effect-state variable appended as last argument.  Shared mutable state behind `&self` handles (channels) cannot be
     expressed in Verus; the stub contracts take it as an explicit `&mut` parameter instead."""
+    # an entry `name*` of fxcalls passes ALL effect-state parameters (fx=a:A+b:B), a plain `name` the first one
+    fxarg = {}
+    for c_ in fxcalls:
+        fxarg[c_.rstrip('*')] = fxname if not c_.endswith('*') else getattr(tx, 'fxall', fxname)
+    fxcalls = list(fxarg)
     for k in range(lo, hi):
         t = ct[k]
+        if t.kind == 'id' and t.text in fxcalls and ct[k + 1].text == '!' and ct[k + 2].kind == 'punct' and ct[k + 2].text in rl.OPEN:
+            # macro invocation (e.g. tokio::select!): the effect state becomes the first macro argument (`select! { fx; .. }`)
+            inserts.append(mk(ct[k + 2].end, ' ' + fxname + ';'))
+            tx.log.append({'rule': 'R13', 'at': f'{tx.rel}:{rl.line_of(tx.src, t.start)}', 'text': t.text + '!{..}',
+                           'note': f'effect state `{fxname}` passed to the macro model'})
+            continue
         # fxbare=1: also plain calls `NAME(ARGS)` of a free fn (never the `fn NAME(` of a definition)
         if t.kind == 'id' and t.text in fxcalls and ct[k + 1].text == '(' and (ct[k - 1].text in ('.', ':') or (bare and ct[k - 1].text != 'fn')):
             close = rl.match_close(ct, k + 1)
             empty = close == k + 2
             trailing = ct[close - 1].text == ','
-            inserts.append(mk(ct[close].start, (fxname if (empty or trailing) else ', ' + fxname)))
+            inserts.append(mk(ct[close].start, (fxarg[t.text] if (empty or trailing) else ', ' + fxarg[t.text])))
             tx.log.append({'rule': 'R13', 'at': f'{tx.rel}:{rl.line_of(tx.src, t.start)}', 'text': t.text + '(..)',
                            'note': f'effect state `{fxname}` passed explicitly'})
 
@@ -804,12 +817,35 @@ class Gen:
         fkey = f'{tyname}::{item.name}' if imp else item.name
         if it.as_name:
             fkey = it.as_name
+        if it.opts.get('key'):
+            fkey = it.opts['key']     # obligation/region name only (several trait impls whose self types share a last token)
         region = f'{u.name}.{fkey}'
         pending_inserts = []   # (byte_pos, text, tag)
         hoisted = []
         split_anns = []
         # R18 first: its `let x = *__ref_x;` must precede annotation text anchored at the same loop-body start
         apply_refpat(tx, ct, fp['bopen'] + 1, fp['bclose'], pending_inserts, lambda pos, text: (pos, text, 'R18'))
+        # R25 (`*` as loop number): `@loop * ..`, `@loophead *`, `@loopend *`, `@tryforeach * ..` apply to EVERY loop of the fn
+        # (`@loop * kw=for`: every `for` loop) / every `.try_for_each(closure)` call -- zero or more, so they are never lost
+        # anchors.  For functions in which every iteration construct has to maintain the same invariant, whatever form the
+        # iteration takes.  `{n}` in the text becomes L<k> (k-th loop) / T<k> (k-th try_for_each), for unique labels.
+        if any(a.arg == '*' and a.kind in ('loop', 'loophead', 'loopend', 'tryforeach') for a in it.anns):
+            import dataclasses
+            n_try = len([k for k in range(fp['bopen'] + 1, fp['bclose'])
+                         if ct[k].kind == 'id' and ct[k].text == 'try_for_each' and ct[k - 1].text == '.' and ct[k + 1].text == '('])
+            all_loops = find_loops(tx, fp['bopen'] + 1, fp['bclose'])
+            expanded = []
+            for a in it.anns:
+                if a.arg == '*' and a.kind == 'tryforeach':
+                    expanded += [dataclasses.replace(a, arg=str(n), text=a.text.replace('{n}', f'T{n}')) for n in range(1, n_try + 1)]
+                elif a.arg == '*' and a.kind in ('loop', 'loophead', 'loopend'):
+                    for n, (kw_, ob_) in enumerate(all_loops, 1):
+                        if 'kw' in a.opts and ct[kw_].text != a.opts['kw']:
+                            continue
+                        expanded.append(dataclasses.replace(a, arg=str(n), text=a.text.replace('{n}', f'L{n}')))
+                else:
+                    expanded.append(a)
+            it = dataclasses.replace(it, anns=expanded)
         for a in it.anns:
             if a.kind == 'ret':
                 if fp['arrow'] is None:
@@ -826,7 +862,10 @@ class Gen:
                 loops = find_loops(tx, fp['bopen'] + 1, fp['bclose'])
                 n = int(a.arg)
                 if n < 1 or n > len(loops):
-                    raise SpecError(f'LOST-ANCHOR: {region}: loop {n} not found ({len(loops)} loops)')
+                    # loop invariants / loop hints are proof hints: a vanished loop degrades the fn (its failures become
+                    # undecided) instead of aborting the whole unit, exactly like a lost @before/@after anchor
+                    self.degraded.setdefault(region, []).append(f'{a.kind} {n} not found ({len(loops)} loops)')
+                    continue
                 kw, ob = loops[n - 1]
                 if 'kw' in a.opts and ct[kw].text != a.opts['kw']:
                     raise SpecError(f'LOST-ANCHOR: {region}: loop {n} is `{ct[kw].text}`, expected `{a.opts["kw"]}`')
@@ -935,14 +974,20 @@ class Gen:
                 loops = find_loops(tx, fp['bopen'] + 1, fp['bclose'])
                 n = int(a.arg)
                 if n < 1 or n > len(loops):
-                    raise SpecError(f'LOST-ANCHOR: {region}: loop {n} not found ({len(loops)} loops)')
+                    # loop invariants / loop hints are proof hints: a vanished loop degrades the fn (its failures become
+                    # undecided) instead of aborting the whole unit, exactly like a lost @before/@after anchor
+                    self.degraded.setdefault(region, []).append(f'{a.kind} {n} not found ({len(loops)} loops)')
+                    continue
                 kw, ob = loops[n - 1]
                 pending_inserts.append((ct[ob].end, '\n' + a.text.rstrip() + '\n', 'loophead'))
             elif a.kind == 'loopend':
                 loops = find_loops(tx, fp['bopen'] + 1, fp['bclose'])
                 n = int(a.arg)
                 if n < 1 or n > len(loops):
-                    raise SpecError(f'LOST-ANCHOR: {region}: loop {n} not found ({len(loops)} loops)')
+                    # loop invariants / loop hints are proof hints: a vanished loop degrades the fn (its failures become
+                    # undecided) instead of aborting the whole unit, exactly like a lost @before/@after anchor
+                    self.degraded.setdefault(region, []).append(f'{a.kind} {n} not found ({len(loops)} loops)')
+                    continue
                 kw, ob = loops[n - 1]
                 pending_inserts.append((ct[rl.match_close(ct, ob)].start, '\n' + a.text.rstrip() + '\n', 'loopend'))
             elif a.kind == 'tryforeach':
@@ -1077,21 +1122,29 @@ class Gen:
         if it.opts.get('prefix'):
             # R6 async prefix: keep the body up to (excluding) the top-level statement that contains the first `.await`.
             # The cut is placed after the last top-level `;` before that `.await`.  The dropped tail is NOT verified.
+            # A suspension point is `.await` or a `select!`/`join!` macro invocation (they await inside).
             aw = next((k for k in range(fp['bopen'], fp['bclose'])
-                       if ct[k].kind == 'id' and ct[k].text == 'await' and ct[k - 1].text == '.'), None)
+                       if (ct[k].kind == 'id' and ct[k].text == 'await' and ct[k - 1].text == '.')
+                       or (ct[k].kind == 'id' and ct[k].text in ('select', 'join', 'try_join') and ct[k + 1].text == '!')), None)
             if aw is None:
-                raise SpecError(f'LOST-ANCHOR: {region}: prefix=1 but no .await in body')
-            depth = 0; cut = fp['bopen'] + 1
-            for k in range(fp['bopen'] + 1, aw):
-                tk = ct[k]
-                if tk.kind == 'punct' and tk.text in rl.OPEN: depth += 1
-                elif tk.kind == 'punct' and tk.text in rl.CLOSE: depth -= 1
-                elif tk.kind == 'punct' and tk.text == ';' and depth == 0: cut = k + 1
-            if depth != 0:
-                raise SpecError(f'UNSUPPORTED: {region}: first .await is nested in a block; prefix cut not possible')
-            tx.edit(ct[cut].start, ct[fp['bclose']].start, '', 'R6',
-                    'async prefix: tail starting at the first statement with .await dropped -- NOT VERIFIED')
-            body_hi = cut
+                # no suspension point at all: the body is synchronous and is verified as a whole (never less text than before)
+                tx.log.append({'rule': 'R6', 'at': f'{it.file}:{l0}', 'text': item.name,
+                               'note': 'prefix=1 but the body has no suspension point: whole body extracted and verified'})
+            else:
+                depth = 0; cut = fp['bopen'] + 1
+                for k in range(fp['bopen'] + 1, aw):
+                    tk = ct[k]
+                    if tk.kind == 'punct' and tk.text in rl.OPEN: depth += 1
+                    elif tk.kind == 'punct' and tk.text in rl.CLOSE: depth -= 1
+                    elif tk.kind == 'punct' and tk.text == ';' and depth == 0: cut = k + 1
+                if depth != 0:
+                    raise SpecError(f'UNSUPPORTED: {region}: first .await is nested in a block; prefix cut not possible')
+                # automatic edits (R2 comment/tracing drops, renames) lying inside the dropped tail are subsumed by the cut
+                if not hasattr(tx, 'subsumed'): tx.subsumed = set()
+                tx.subsumed |= {(s_, e_) for (s_, e_, _r) in tx.edits if ct[cut].start <= s_ and e_ <= ct[fp['bclose']].start}
+                tx.edit(ct[cut].start, ct[fp['bclose']].start, '', 'R6',
+                        'async prefix: tail starting at the first statement with .await dropped -- NOT VERIFIED')
+                body_hi = cut
         if it.opts.get('unpin'):
             # R23 (Pin erasure): `[mut] self: Pin<&mut Self>` => `&mut self`, `Pin<&mut T>` => `&mut T`, `Pin::new(E)` => `(E)`.
             # For `T: Unpin`, `Pin<&mut T>` and `&mut T` are interchangeable (Pin::new / Pin::get_mut are safe identities);
@@ -1131,11 +1184,21 @@ class Gen:
                 if ct[k].text == '&' and ct[k + 1].kind == 'id' and ct[k + 1].text == 'self':
                     tx.edit(ct[k].start, ct[k + 1].end, '&mut self', 'R13b', 'interior mutability made explicit: &self => &mut self')
         if it.opts.get('fx'):
-            fxname, fxty = it.opts['fx'].split(':', 1)
+            # fx=a:A+b:B adds several effect-state parameters; fxcalls/awaitfx pass the first one (`name*` in fxcalls: all)
+            fxall = [x.split(':', 1) for x in it.opts['fx'].split('+')]
+            fxname, fxty = fxall[0]
+            tx.fxall = ', '.join(n for n, _t in fxall)
             empty = fp['pclose'] == fp['popen'] + 1
             trailing = ct[fp['pclose'] - 1].text == ','
-            pending_inserts.append((ct[fp['pclose']].start, ('' if (empty or trailing) else ', ') + f'{fxname}: &mut {fxty}', 'R13'))
-            tx.log.append({'rule': 'R13', 'at': f'{it.file}:{l0}', 'text': item.name, 'note': f'effect-state parameter `{fxname}: &mut {fxty}` added'})
+            pending_inserts.append((ct[fp['pclose']].start, ('' if (empty or trailing) else ', ') + ', '.join(f'{n}: &mut {t}' for n, t in fxall), 'R13'))
+            tx.log.append({'rule': 'R13', 'at': f'{it.file}:{l0}', 'text': item.name, 'note': 'effect-state parameter(s) added: ' + ', '.join(f'`{n}: &mut {t}`' for n, t in fxall)})
+            if it.opts.get('awaitfx'):
+                # R24: `EXPR.await` => `EXPR.await_model(fx)`: the suspension is modelled as a blocking call of an ASSUMED
+                # contract stub (prelude) that lets the rest of the world move on (other tasks run) and states what holds on resumption.
+                for k in range(fp['bopen'], body_hi):
+                    if ct[k].kind == 'id' and ct[k].text == 'await' and ct[k - 1].text == '.' \
+                            and not any(s_ <= ct[k].start and ct[k].end <= e_ for (s_, e_, _r) in tx.edits):
+                        tx.edit(ct[k].start, ct[k].end, f'await_model({fxname})', 'R24', 'await modelled as a blocking call with an assumed contract')
             apply_fx(tx, ct, fp['bopen'], body_hi, fxname, it.opts.get('fxcalls', '').split(','), pending_inserts,
                      lambda pos, text: (pos, text, 'R13'), bare=bool(it.opts.get('fxbare')))
         if it.opts.get('tls'):
@@ -1144,14 +1207,15 @@ class Gen:
                              pending_inserts, lambda pos, text: (pos, text, 'R19'))
         if it.opts.get('inherent') and imp is not None and imp.trait_name:
             # the method gets an extra parameter (fx), so it can no longer be emitted inside the trait impl
-            imp_header = re.sub(r'\b%s\s+for\s+' % re.escape(imp.trait_name), '', imp_header)
+            imp_header = re.sub(r'\b(?:\w+\s*::\s*)*%s\s+for\s+' % re.escape(imp.trait_name), '', imp_header)   # also a path-qualified trait (`impl std::os::unix::fs::FileExt for File`)
             tx.log.append({'rule': 'R13', 'at': f'{it.file}:{l0}', 'text': imp.header, 'note': 'trait method emitted as inherent method (signature extended by effect state)'})
         if 'async' in it.opts or any(t.kind == 'id' and t.text == 'async' for t in ct[:fp['fn']]):
             for t in ct[:fp['fn']]:
                 if t.kind == 'id' and t.text == 'async':
                     tx.edit(t.start, t.end, '', 'R6', 'async dropped (body must contain no .await)')
             for k in range(fp['bopen'], body_hi):
-                if ct[k].kind == 'id' and ct[k].text == 'await' and ct[k - 1].text == '.':
+                if ct[k].kind == 'id' and ct[k].text == 'await' and ct[k - 1].text == '.' and not it.opts.get('awaitfx') \
+                        and not any(s_ <= ct[k].start and ct[k].end <= e_ for (s_, e_, _r) in tx.edits):   # (an @idiom may have replaced it)
                     raise SpecError(f'UNSUPPORTED: {region}: async fn with .await in extracted text')
         # apply inserts as edits of zero width; compute label lines after render.
         MARK = '\x00%d\x00'
@@ -1177,6 +1241,13 @@ class Gen:
                 for c in imp.children:
                     if c.kind == 'type':
                         self.emit('    ' + src[c.decl_start:c.end] + '\n')
+            # @implspec: spec-fn definitions of a contract trait (declared in @spec) for this impl; Verus wants them in
+            # the same impl block as the method.  Only `spec fn` items are accepted.
+            for a in it.anns:
+                if a.kind == 'implspec':
+                    if re.search(r'\b(exec|proof)\s+fn\b', a.text) or re.search(r'^\s*(?:pub\s+)?fn\b', a.text, flags=re.M) or 'external_body' in a.text:
+                        raise SpecError(f'{region}: @implspec may only contain spec fns')
+                    self.emit(a.text.rstrip('\n') + '\n')
         base = self.nline
         # expand markers, tracking lines
         pieces = re.split(r'\x00(\d+)\x00', rendered)
